@@ -39,7 +39,7 @@ theorem runFile_due_keep {k : Nat} {f : FileDesc} {P : Prop} (fuel : Nat) (s : S
       | nil => exact absurd hql hq
       | cons a r => rfl
     unfold runFile
-    simp only [hne, if_true]
+    simp only [openFailed_false, hne, if_true]
     exact ⟨trivial, trivial, trivial, hq⟩
 
 /-- a queue that does not hold `k`: `k` is untouched whatever the queue returns -/
@@ -282,7 +282,7 @@ theorem runFile_not_fdt : ∀ fuel (s : State) prio (cur : Option Cur) now ticks
   | zero => intro s prio cur now ticks a b d e; cases e
   | succ n ih =>
     intro s prio cur now ticks a b d
-    have key : ∀ (s1 : State) (cur1 : Option Cur),
+    have key : ∀ (fr : Bool) (s1 : State) (cur1 : Option Cur),
         (if !s1.fdtQueue.isEmpty then (s1, cur1, Out.none) else
           match cur1 with
           | none => (s1, none, Out.none)
@@ -292,10 +292,14 @@ theorem runFile_not_fdt : ∀ fuel (s : State) prio (cur : Option Cur) now ticks
             | some f =>
               if gateBlocked f now then (s1, cur1, Out.none) else
               match encRead f.nSym c.enc (canStop f && !s1.files.contains c.key) with
-              | (none, _) => runFile n (transferDoneFile s1 c.key now) prio none now ticks
+              | (none, _) =>
+
+                if fr then (transferDoneFile s1 c.key now, none, Out.none)
+
+                else runFile n (transferDoneFile s1 c.key now) prio none now ticks
               | (some (idx, b), e) => (pktStep s1 prio c.key now idx b, some { c with enc := e }, Out.pkt prio c.key idx b)).2.2
           ≠ Out.fdt a b d := by
-      intro s1 cur1
+      intro fr s1 cur1
       split
       · intro e; cases e
       · cases cur1 with
@@ -307,18 +311,27 @@ theorem runFile_not_fdt : ∀ fuel (s : State) prio (cur : Option Cur) now ticks
           · split
             · intro e; cases e
             · split
-              · exact ih _ _ _ _ _ a b d
+              · cases fr with
+                | true => simp only [if_true]; intro e; cases e
+                | false => simp only [Bool.false_eq_true, if_false]; exact ih _ _ _ _ _ a b d
               · intro e; cases e
     unfold runFile
     cases cur with
-    | some c => exact key s (some c)
+    | some c => exact key false s (some c)
     | none =>
       simp only []
       cases hg : getNextFile s prio now ticks with
       | mk s' r =>
         cases r with
-        | none => exact key s' none
-        | some t => exact key s' (some (startCur s' t))
+        | none => exact key true s' none
+        | some t =>
+          simp only []
+          cases ho : openFailed true s' (some (startCur s' t)) with
+          | none => exact key true s' (some (startCur s' t))
+          | some kf =>
+            obtain ⟨k', f'⟩ := kf
+            simp only []
+            intro e; cases e
 
 theorem readQueue_not_fdt : ∀ k (s : State) (q : QSess) now ticks a b d,
     (readQueue k s q now ticks).2.2 ≠ Out.fdt a b d := by
